@@ -400,4 +400,14 @@ EXPLANATION = EXPLANATION + (" (R9) sequence arithmetic never produces the reser
 
 EXPLANATION = EXPLANATION + " (R4, as built) FragmentReceiver.receive is decided by partial evaluation (engine/minieval) on 33 (receiver state, index) pairs: slot index-1 takes the new fragment exactly when 1 <= index <= count and the slot was empty, nothing else changes; the statement-shape rule is the fallback outside the evaluator's fragment."
 
-RULES = [("C04.R1", r1), ("C04.R2", r2), ("C04.R3", r3), ("C04.R4", r4), ("C04.R5", r_enum), ("C04.R6", r_shared_r6), ("C04.R7", r_shared_r7), ("C04.R8", r8), ("C04.R9", r_shared_r9)]
+def r_shared_r10(ctx):
+    """the receive window records authenticated sequence numbers only (shared C01.R4): a forged header that moves the window first makes the window forget what it had seen - a recorded datagram replayed afterwards is accepted as new"""
+    from . import c01 as _m
+    from .c02 import _Sub
+    for _f in ['r4']:
+        getattr(_m, _f)(_Sub(ctx, "C04.R10"))
+
+
+EXPLANATION = EXPLANATION + ' (R10) no state effect - in particular no insert into the datagram window - before Packet.from_bytes has authenticated the datagram (shared C01.R4): a forged far-ahead sequence number would wipe the window and let recorded datagrams be accepted again.'
+
+RULES = [("C04.R1", r1), ("C04.R2", r2), ("C04.R3", r3), ("C04.R4", r4), ("C04.R5", r_enum), ("C04.R6", r_shared_r6), ("C04.R7", r_shared_r7), ("C04.R8", r8), ("C04.R9", r_shared_r9), ("C04.R10", r_shared_r10)]
